@@ -355,25 +355,11 @@ func (i *introspectionVisitor) TypeRef(typeRef int) TypeRef {
 	switch i.definition.Types[typeRef].TypeKind {
 	case ast.TypeKindNamed:
 		name := i.definition.TypeNameBytes(typeRef)
-		node, exists := i.definition.Index.FirstNodeByNameBytes(name)
-		if !exists {
+		nodes, exists := i.definition.Index.NodesByNameBytes(name)
+		if !exists || len(nodes) == 0 {
 			return TypeRef{TypeName: "__Type"}
 		}
-		var typeKind __TypeKind
-		switch node.Kind {
-		case ast.NodeKindScalarTypeDefinition:
-			typeKind = SCALAR
-		case ast.NodeKindObjectTypeDefinition:
-			typeKind = OBJECT
-		case ast.NodeKindEnumTypeDefinition:
-			typeKind = ENUM
-		case ast.NodeKindInterfaceTypeDefinition:
-			typeKind = INTERFACE
-		case ast.NodeKindUnionTypeDefinition:
-			typeKind = UNION
-		case ast.NodeKindInputObjectTypeDefinition:
-			typeKind = INPUTOBJECT
-		}
+		typeKind := namedTypeKind(nodes)
 		nameStr := unsafebytes.BytesToString(name)
 		return TypeRef{
 			Kind:     typeKind,
@@ -397,6 +383,28 @@ func (i *introspectionVisitor) TypeRef(typeRef int) TypeRef {
 	default:
 		return TypeRef{TypeName: "__Type"}
 	}
+}
+
+// namedTypeKind returns the kind of the first type definition among the nodes indexed under
+// one name; directive definitions and the schema definition share that index.
+func namedTypeKind(nodes []ast.Node) (typeKind __TypeKind) {
+	for _, node := range nodes {
+		switch node.Kind {
+		case ast.NodeKindScalarTypeDefinition:
+			return SCALAR
+		case ast.NodeKindObjectTypeDefinition:
+			return OBJECT
+		case ast.NodeKindEnumTypeDefinition:
+			return ENUM
+		case ast.NodeKindInterfaceTypeDefinition:
+			return INTERFACE
+		case ast.NodeKindUnionTypeDefinition:
+			return UNION
+		case ast.NodeKindInputObjectTypeDefinition:
+			return INPUTOBJECT
+		}
+	}
+	return
 }
 
 func (i *introspectionVisitor) deprecationReason(directiveRef int) (reason *string) {
